@@ -1512,3 +1512,108 @@ def work_r(task, col):
                 col.outcome("r:" + (probs[0][0] if probs else "equal"))
                 for klass, what in probs:
                     col.violation("C09/%s/%s" % (klass, descr_r(case)), what, case)
+
+
+# =========================================================================== mutants tried
+# (name, file, --old, --new, reported as); re-run each with
+#   tools/mutant.py C09 --file <file> --old '<old>' --new '<new>'
+# (old/new below are already in the unicode_escape form the tool expects).  All 24 are reported
+# by the quick tier on every run; none is reported on the unchanged tree.
+MUTANTS_TRIED = [
+    ('m1-first-name-dup-not-reset', 'dns/zone.py',
+     '                l = self[n].to_styled_text(style, n)\\n',
+     '                l = self[n].to_styled_text(style, n)\\n                if style.deduplicate_names:\\n                    style = style.replace(first_name_is_duplicate=True)\\n',
+     'C09/a/reread-crash/CNAMEAndOtherData@_check_cname_and_other_data/opts=deduplicate_names/...'),
+    ('m2-dollar-ttl-line-omitted', 'dns/zone.py',
+     '            if style.default_ttl is not None:\\n                l = f"$TTL',
+     '            if False:\\n                l = f"$TTL',
+     'C09/a/zone-differs/ttl/opts=default_ttl/...'),
+    ('m3-generate-width', 'dns/zonefile.py',
+     'return format(index, base).zfill(width)',
+     "return format(index, base).rjust(width, '0' if base == 'd' else ' ').replace(' ', '')",
+     'C09/g/expansion-differs/plain'),
+    ('m4-generate-offset-sign', 'dns/zonefile.py',
+     '                offset *= -1\\n',
+     '                pass\\n',
+     'C09/g/expansion-differs/plain'),
+    ('m5-default-ttl-ge', 'dns/rdataset.py',
+     'style.default_ttl is not None and self.ttl == style.default_ttl',
+     'style.default_ttl is not None and self.ttl >= style.default_ttl',
+     'C09/a/zone-differs/ttl/opts=default_ttl/...'),
+    ('m6-dedup-first-rdata-only', 'dns/rdataset.py',
+     '                if style.deduplicate_names:\\n                    ntext = "    "\\n                    ntext = justify(ntext, style.name_just)\\n',
+     '                if style.deduplicate_names:\\n                    ntext = ""\\n',
+     'C09/a/zone-differs/name-extra/opts=deduplicate_names/...'),
+    ('m7-last-ttl-before-default', 'dns/zonefile.py',
+     '                if self.default_ttl_known:\\n                    ttl = self.default_ttl\\n                elif self.last_ttl_known:\\n                    ttl = self.last_ttl\\n                self.tok.unget(token)',
+     '                if self.last_ttl_known:\\n                    ttl = self.last_ttl\\n                elif self.default_ttl_known:\\n                    ttl = self.default_ttl\\n                self.tok.unget(token)',
+     'C09/b/zone-differs/ttl/spelling=ttl=1/zone'),
+    ('m8-comment-in-parens-keeps-token', 'dns/tokenizer.py',
+     '                        elif self.multiline:\\n                            self.skip_whitespace()\\n                            token = ""\\n                            continue',
+     '                        elif self.multiline:\\n                            self.skip_whitespace()\\n                            continue',
+     'C09/b/load-crash/SyntaxError@.../spelling=com=1+par=N/zone'),
+    ('m9-tab-not-whitespace-in-skip', 'dns/tokenizer.py',
+     '            if c != " " and c != "\\\\t":\\n                if (c != "\\\\n") or not self.multiline:',
+     '            if c != " ":\\n                if (c != "\\\\n") or not self.multiline:',
+     'C09/b/load-crash/SyntaxError@_get_identifier:.../spelling=ws=1/zone (and com=1)'),
+    ('m10-origin-line-relativized', 'dns/zone.py',
+     '                origin_style = style.replace(origin=None)',
+     '                origin_style = style',
+     'C09/a/reread-crash/NoSOA@check_origin/opts=want_origin/...'),
+    ('m11-out-of-zone-kept', 'dns/zonefile.py',
+     '            if not name.is_subdomain(self.zone_origin):\\n                self._eat_line()\\n                return\\n            if self.relativize:\\n                name = name.relativize(self.zone_origin)\\n\\n        # TTL',
+     '            if not name.is_subdomain(self.zone_origin) and name.is_subdomain(self.zone_origin.parent()):\\n                self._eat_line()\\n                return\\n            if self.relativize:\\n                name = name.relativize(self.zone_origin)\\n\\n        # TTL',
+     'C09/c1/zone-differs/name-extra/junk=other-tld|root/... and KeyError@_validate_name'),
+    ('m12-cname-check-one-direction', 'dns/zonefile.py',
+     '        node_kind == dns.node.NodeKind.REGULAR\\n        and rdataset_kind == dns.node.NodeKind.CNAME',
+     '        node_kind == dns.node.NodeKind.REGULAR\\n        and rdataset_kind == dns.node.NodeKind.NEUTRAL',
+     'C09/c2/cname-coexists-with-other-data/seq=A>CNAME/owner=node/...'),
+    ('m13-mid-origin-becomes-zone-origin', 'dns/zonefile.py',
+     '                        if self.zone_origin is None:\\n                            self.zone_origin = self.current_origin',
+     '                        if True:\\n                            self.zone_origin = self.current_origin',
+     'C09/b/zone-differs/name-missing/spelling=mid=1/zone'),
+    ('m14-rdata-relativize-to-current-origin', 'dns/zonefile.py',
+     '                self.tok,\\n                self.current_origin,\\n                self.relativize,\\n                self.zone_origin,',
+     '                self.tok,\\n                self.current_origin,\\n                self.relativize,\\n                self.current_origin,',
+     'C09/b/zone-differs/rdata/spelling=mid=1/zone'),
+    ('m15-class-then-ttl-not-remembered', 'dns/zonefile.py',
+     '            # support for <class> <ttl> <type> syntax\\n            token = self._get_identifier()\\n            try:\\n                ttl = dns.ttl.from_text(token.value)\\n                self.last_ttl = ttl\\n                self.last_ttl_known = True',
+     '            # support for <class> <ttl> <type> syntax\\n            token = self._get_identifier()\\n            try:\\n                ttl = dns.ttl.from_text(token.value)',
+     'C09/b/load-crash/SyntaxError@_rr_line:missing-default-ttl-value/spelling=order=1+rorder=1+ttl=2/zone'),
+    ('m16-eat-line-stops-at-first-token', 'dns/zonefile.py',
+     '        while 1:\\n            token = self.tok.get()\\n            if token.is_eol_or_eof():\\n                break',
+     '        while 1:\\n            token = self.tok.get()\\n            if token.is_eol_or_eof() or token.is_quoted_string():\\n                break',
+     'C09/c1/load-crash/SyntaxError@as_name:expecting-an-identifier/junk=pair-inherit/...'),
+    ('m17-soa-minimum-default-overrides-dollar-ttl', 'dns/zonefile.py',
+     '        if not self.default_ttl_known and rdtype == dns.rdatatype.SOA:',
+     '        if rdtype == dns.rdatatype.SOA:',
+     'C09/b/zone-differs/ttl/spelling=ttl=1/zone'),
+    ('m18-nl-bytes-ignored-binary', 'dns/zone.py',
+     '                nl_b = style.nl.encode(file_enc)\\n                nl = style.nl',
+     '                nl_b = b""\\n                nl = style.nl',
+     'C09/a/reread-crash/SyntaxError@get_eol_as_token:.../opts=nl/.../via=styled_file_bin'),
+    ('m19-justify-right', 'dns/rdataset.py',
+     '        return text.ljust(-1 * amount)',
+     '        return text.rjust(-1 * amount)',
+     'C09/a/reread-crash/SyntaxError@_rr_line:unknown-rdatatype/opts=name_just/...'),
+    ('m20-generate-step-ignored', 'dns/zonefile.py',
+     '        for i in range(start, stop + 1, step):',
+     '        for i in range(start, stop + 1):',
+     'C09/g/expansion-differs/plain'),
+    ('m21-comments-dropped-with-dedup', 'dns/rdataset.py',
+     '                if style.want_comments:\\n                    if rd.rdcomment:',
+     '                if style.want_comments and not style.deduplicate_names:\\n                    if rd.rdcomment:',
+     'C09/a/comments-differ/opts=deduplicate_names+want_comments/...'),
+    ('m22-generic-class-mnemonic-missing-space', 'dns/rdataset.py',
+     'rdclass_text = f"CLASS{rdclass} "',
+     'rdclass_text = f"CLASS{rdclass}"',
+     'C09/a/reread-crash/SyntaxError@_rr_line:unknown-rdatatype/opts=want_generic/...'),
+    ('m23-ttl-units-week', 'dns/ttl.py',
+     'total += current * 604800',
+     'total += current * 604000',
+     'C09/b/zone-differs/ttl/spelling=units=1/zone'),
+    ('m24-leading-ws-owner-lost-after-directive', 'dns/zonefile.py',
+     '                    elif c == "$ORIGIN":\\n                        self.current_origin = self.tok.get_name()',
+     '                    elif c == "$ORIGIN":\\n                        self.current_origin = self.tok.get_name()\\n                        self.last_name = self.current_origin',
+     'C09/b/zone-differs/rdataset-extra/spelling=mid=1+own=1/zone'),
+]
